@@ -505,6 +505,139 @@ impl<TC: HasRef> DirCtx<TC> {
         }
     }
 
+    /// A full copy of this context over a deep copy of the database, with a manager of the same cache
+    /// kind (warmed by one sweep so that its cache holds the current epoch) and the same cell.
+    pub async fn fork_same(&self, warm: bool) -> DirCtx<TC> {
+        let db = self.db.deep_copy().await;
+        let manager = self.cell.manager(db.clone());
+        let dir = Directory::<TC, _, _>::new(manager.clone(), self.vrf.clone(), self.cell.parallelism()).await.unwrap();
+        let mut f = DirCtx {
+            db,
+            manager,
+            dir,
+            vrf: self.vrf.clone(),
+            pk: self.pk.clone(),
+            ckey: self.ckey,
+            conc: self.conc.clone(),
+            cell: self.cell.clone(),
+            labels: self.labels.clone(),
+            values: self.values.clone(),
+            roots: self.roots.clone(),
+            ident: self.ident.clone(),
+            ident_upto: self.ident_upto,
+            versions: self.versions.clone(),
+            kinds: self.kinds.clone(),
+        };
+        if warm {
+            let mut scratch = Tracer::new();
+            f.sweep(&mut scratch).await;
+        }
+        f
+    }
+
+    /// C10: the publish is executed once per storage operation index k with operation k failing
+    /// (Connection error); after each failed call: sweep on the same instance, sweep on a fresh
+    /// instance over the same storage, then a retry that must succeed.
+    pub async fn publish_fault_sweep(&mut self, batch: &Value, tr: &mut Tracer) {
+        // learn the number of storage operations of this publish on a scratch copy
+        let mut probe = self.fork_same(true).await;
+        probe.db.reset_counter();
+        let mut scratch = Tracer::new();
+        probe.publish(batch, &mut scratch).await;
+        let n = probe.db.ops();
+        tr.emit(json!({"ev": "save"}));
+        for k in 1..=n {
+            let mut f = self.fork_same(true).await;
+            f.db.reset_counter();
+            f.db.set_fail_at(k);
+            f.db.set_log(true);
+            let real = f.batch_to_real(batch);
+            let before = f.roots.len() as u64 - 1;
+            let w = f.writer().await;
+            let res = w.publish(real).await;
+            let oplog = f.db.take_log();
+            f.db.set_log(false);
+            f.db.reset_counter();
+            let failed_op = oplog.iter().find(|o| o.failed).map(|o| o.kind).unwrap_or("-");
+            tr.emit(json!({"ev": "restore"}));
+            match res {
+                Ok(EpochHash(ep, digest)) => {
+                    // the failing operation was tolerated (or never reached): a normal publish
+                    let kind = if ep == before { "noop" } else { "ok" };
+                    if ep == before + 1 {
+                        f.roots.push(digest);
+                        for p in batch.as_array().unwrap() {
+                            *f.versions.entry(p[0].as_str().unwrap().to_string()).or_insert(0) += 1;
+                        }
+                    }
+                    let (refroot, leaves) = f.leaves_and_refroot(ep).await;
+                    tr.emit(json!({"ev": "publish_fault", "k": k, "n": n, "failed_op": failed_op, "batch": batch, "res": kind, "epoch": ep, "root": rid(&digest),
+                        "root_ok": refroot == Some(digest), "leaves": leaves, "txn_open": f.manager.is_transaction_active()}));
+                }
+                Err(_) => {
+                    tr.emit(json!({"ev": "publish_fault", "k": k, "n": n, "failed_op": failed_op, "batch": batch, "res": "err", "epoch": before, "root": "-",
+                        "root_ok": true, "leaves": [], "txn_open": f.manager.is_transaction_active()}));
+                }
+            }
+            // same instance (with its cache)
+            f.sweep(tr).await;
+            // a fresh instance over the same storage
+            tr.emit(json!({"ev": "reopen", "kind": "fresh_instance"}));
+            let mut g = f.fork_same(false).await;
+            g.sweep(tr).await;
+            // retry on the same instance
+            f.publish(batch, tr).await;
+            f.sweep(tr).await;
+        }
+        tr.emit(json!({"ev": "restore"}));
+    }
+
+    /// C13: a second (read-only) instance with its own cached manager over the same database.
+    /// Its cache is warmed now; later reads through it are served by an instance that may have
+    /// fallen behind storage by any number of epochs.
+    pub async fn open_remote(&self, cache: &str) -> DirCtx<TC> {
+        let mut cell = self.cell.clone();
+        cell.cache = cache.to_string();
+        cell.reopen = "readonly".to_string();
+        let manager = cell.manager(self.db.clone());
+        let dir = Directory::<TC, _, _>::new(manager.clone(), self.vrf.clone(), cell.parallelism()).await.unwrap();
+        let mut r = DirCtx {
+            db: self.db.clone(),
+            manager,
+            dir,
+            vrf: self.vrf.clone(),
+            pk: self.pk.clone(),
+            ckey: self.ckey,
+            conc: self.conc.clone(),
+            cell,
+            labels: self.labels.clone(),
+            values: self.values.clone(),
+            roots: self.roots.clone(),
+            ident: HashMap::new(),
+            ident_upto: 0,
+            versions: self.versions.clone(),
+            kinds: self.kinds.clone(),
+        };
+        let mut scratch = Tracer::new();
+        r.sweep(&mut scratch).await;
+        r
+    }
+
+    /// answers of a possibly lagging instance: recorded as `ranswer` events (error, or a published pair)
+    pub async fn remote_reads(&mut self, roots_now: &[Digest], versions_now: &HashMap<String, u64>, tr: &mut Tracer) {
+        self.roots = roots_now.to_vec();
+        self.versions = versions_now.clone();
+        let mut inner = Tracer::new();
+        self.sweep(&mut inner).await;
+        for line in inner.buf {
+            let mut v: Value = serde_json::from_str(&line).unwrap();
+            let kind = v["ev"].as_str().unwrap().to_string();
+            v["kind"] = json!(kind);
+            v["ev"] = json!("ranswer");
+            tr.emit(v);
+        }
+    }
+
     pub async fn tombstone(&mut self, label: &str, cut: u64, tr: &mut Tracer) {
         let l = self.conc.label(label);
         let res = self.manager.tombstone_value_states(&l, cut).await;
@@ -788,10 +921,24 @@ pub async fn run_behaviour<TC: HasRef>(b: &Value, tr: &mut Tracer) {
     tr.emit(json!({"ev": "reset", "cfg": TC::NAME, "conc": conc, "cell": cell.to_json(), "root0": rid(&ctx.roots[0]),
         "id": b["id"]}));
     let sweep_every = b["sweep"].as_str().unwrap_or("end") == "every";
+    let mut remote: Option<DirCtx<TC>> = None;
     let steps = b["steps"].as_array().unwrap();
     for (i, st) in steps.iter().enumerate() {
         match st["op"].as_str().unwrap() {
             "publish" => ctx.publish(&st["batch"], tr).await,
+            "publish_fault_sweep" => ctx.publish_fault_sweep(&st["batch"], tr).await,
+            "remote_open" => {
+                remote = Some(ctx.open_remote(st["cache"].as_str().unwrap_or("default")).await);
+                tr.emit(json!({"ev": "reopen", "kind": "remote_open"}));
+            }
+            "remote_read" => {
+                if let Some(r) = remote.as_mut() {
+                    if r.cell.cache == "short" {
+                        tokio::time::sleep(Duration::from_millis(4)).await;
+                    }
+                    r.remote_reads(&ctx.roots, &ctx.versions, tr).await;
+                }
+            }
             "publish_crash" => ctx.publish_crash(&st["batch"], b["seed"].as_u64().unwrap_or(1) + i as u64, tr).await,
             "tombstone" => {
                 ctx.tombstone(st["label"].as_str().unwrap(), st["cut"].as_u64().unwrap(), tr)
